@@ -106,7 +106,25 @@ impl Scenario for C03 {
             // long enough to cross a carry a few blocks away
             let len = if b.rng.chance(1, 2) { 40 + b.rng.usize_below(200) } else { b.payload_len(false).min(5000) };
             let payload = b.bytes(len);
-            let foot = b.small_bytes(40);
+            // one in six footers is JSON in a spelling serde_json would not produce (another
+            // implementation wrote it) and is read into a typed footer
+            let json_foot = b.rng.chance(1, 6);
+            let foot = if json_foot {
+                let spellings: [&[u8]; 6] = [
+                    &br#"{"kid": "k4.lid.x"}"#[..],
+                    &br#"{"b":1,"a":2}"#[..],
+                    &b"{\n  \"kid\": \"x\"\n}"[..],
+                    &br#"{"kid":"a\/b"}"#[..],
+                    &br#"{"kid":"\u0041","n":1E2}"#[..],
+                    &br#" {"kid":"x"} "#[..],
+                ];
+                Bytes::hex(spellings[b.rng.usize_below(6)])
+            } else {
+                b.small_bytes(40)
+            };
+            // one in five tokens uses the encoding with header suffix "c" (v4c.local.)
+            let sfx_c = b.rng.chance(1, 5);
+            let mk_claims = |bytes: Bytes| if sfx_c { ClaimsSpec::RawC { bytes } } else { ClaimsSpec::Raw { bytes } };
             let aad = b.aad_for(bk);
             let tok = b.tok_slot();
             let now = Ns(b.now_ns);
@@ -117,7 +135,7 @@ impl Scenario for C03 {
                     let rng = if b.rng.chance(1, 6) { b.edge_rng() } else { b.healthy_rng() };
                     let key = if purpose == Purp::Local { fk.local } else { fk.secret };
                     let footer = if foot.is_empty() { FootSpec::Unit } else { FootSpec::Bytes { bytes: foot } };
-                    b.push(Step::Seal { tok, node: issuer, key, purpose, claims: ClaimsSpec::Raw { bytes: payload }, footer, aad, nonce: None, alias: false, rng, now_ns: now });
+                    b.push(Step::Seal { tok, node: issuer, key, purpose, claims: mk_claims(payload), footer, aad, nonce: None, alias: false, rng, now_ns: now });
                 }
                 1 => {
                     // library, caller-supplied nonce (the random input of the construction)
@@ -125,18 +143,20 @@ impl Scenario for C03 {
                     let key = if purpose == Purp::Local { fk.local } else { fk.secret };
                     let footer = if foot.is_empty() { FootSpec::Unit } else { FootSpec::Bytes { bytes: foot } };
                     let rng = b.healthy_rng();
-                    b.push(Step::Seal { tok, node: issuer, key, purpose, claims: ClaimsSpec::Raw { bytes: payload }, footer, aad, nonce: Some(Bytes::hex(&nonce)), alias: false, rng, now_ns: now });
+                    b.push(Step::Seal { tok, node: issuer, key, purpose, claims: mk_claims(payload), footer, aad, nonce: Some(Bytes::hex(&nonce)), alias: false, rng, now_ns: now });
                 }
                 _ => {
                     // the reference node issues; any wire nonce is specification-conforming
                     let nonce = edge_nonce(&mut b, nl);
                     let key = if purpose == Purp::Local { fk.local } else { fk.secret };
-                    b.push(Step::RefSeal { tok, family: f, key, purpose, payload, footer: foot, aad, nonce: Bytes::hex(&nonce) });
+                    b.push(Step::RefSeal { tok, family: f, key, purpose, payload, footer: foot, aad, nonce: Bytes::hex(&nonce), suffix: if sfx_c { "c".into() } else { String::new() } });
                 }
             }
             let vkey = if purpose == Purp::Local { fk.local } else { fk.public };
             for node in 0..nodes.len() {
-                b.push(Step::Deliver { tok, node, key: vkey, purpose: None, faults: vec![], pk: Some(crate::backend::PayloadKind::Raw), fk: Some(crate::backend::FootKind::Bytes), validator: VSpec::None, alias: false, now_ns: now, pair_with: None });
+                let pk = if sfx_c { crate::backend::PayloadKind::RawC } else { crate::backend::PayloadKind::Raw };
+                let fk = if json_foot { crate::backend::FootKind::Json } else { crate::backend::FootKind::Bytes };
+                b.push(Step::Deliver { tok, node, key: vkey, purpose: None, faults: vec![], pk: Some(pk), fk: Some(fk), validator: VSpec::None, alias: false, now_ns: now, pair_with: None });
             }
         }
         b.finish()
